@@ -62,9 +62,33 @@ pub fn sim_cfg_of(plan: &Plan) -> SimCfg {
     }
 }
 
+/// Host-environment input: confine this process (one per run) to the first `n` CPUs it may use.
+fn confine_to_cpus(n: u8, seed: u64) {
+    if n == 0 {
+        return;
+    }
+    unsafe {
+        let mut cur: libc::cpu_set_t = std::mem::zeroed();
+        if libc::sched_getaffinity(0, std::mem::size_of::<libc::cpu_set_t>(), &mut cur) != 0 {
+            return;
+        }
+        let allowed: Vec<usize> = (0..libc::CPU_SETSIZE as usize).filter(|c| libc::CPU_ISSET(*c, &cur)).collect();
+        if allowed.len() <= n as usize {
+            return;
+        }
+        let mut new: libc::cpu_set_t = std::mem::zeroed();
+        let start = (seed >> 20) as usize % allowed.len();
+        for i in 0..n as usize {
+            libc::CPU_SET(allowed[(start + i) % allowed.len()], &mut new);
+        }
+        libc::sched_setaffinity(0, std::mem::size_of::<libc::cpu_set_t>(), &new);
+    }
+}
+
 /// Execute in this process (used inside the forked child and by `--inproc` debugging).
 pub fn execute(plan: &Plan, choices: Option<Vec<u32>>, record: bool, props: &[String], dump: bool) -> RunSummary {
     std::panic::set_hook(Box::new(|_| {}));
+    confine_to_cpus(plan.sim.cpus, plan.seed);
     if plan.has_tag("differential") {
         return execute_differential(plan, choices, record, props, dump);
     }
@@ -96,6 +120,9 @@ pub fn execute(plan: &Plan, choices: Option<Vec<u32>>, record: bool, props: &[St
     faults.insert("task_stalled_in_virtual_time".to_string(), out.counters.vstalls);
     faults.insert("blocks".to_string(), out.counters.blocks);
     faults.insert("select_arm_choices".to_string(), out.counters.select_choices);
+    if plan.sim.cpus > 0 {
+        faults.insert("host_confined_to_1_to_3_cpus".to_string(), 1);
+    }
     // fault kinds that actually fired in this run, counted from the history
     {
         let mut add = |k: &str, n: u64| {
